@@ -95,12 +95,12 @@ def _np13():
 
     class NP13(type(npmodel._np_singleton)):
         @staticmethod
-        def zeros(shape, dtype=None):
+        def zeros(shape, dtype=None, **kw):
             return npmodel.RecArray(shape, 0, dtype)
 
         @staticmethod
-        def full(shape, fill, dtype=None):
-            return npmodel.RecArray(shape, fill, dtype)
+        def full(shape, fill_value, dtype=None, **kw):
+            return npmodel.RecArray(shape, fill_value, dtype)
 
     return NP13()
 
@@ -481,7 +481,7 @@ def h_chunk_any_selection(nsel, extra):
         seen = []
         real_rr = dk._rio_reproject
 
-        def rec(src_, dst_, s_gbox, d_gbox, **kw):
+        def rec(src_, dst_, s_gbox, d_gbox, resampling=None, src_nodata=None, dst_nodata=None, **kw):  # the signature of _rio_reproject
             seen.append((real_np.array(src_), s_gbox, d_gbox))
             return dst_
 
@@ -609,8 +609,8 @@ def h_gcp_source(nsel):
     saved_rr = dk._rio_reproject
     seen = []
 
-    def rec(src_, dst_, s_gbox, d_gbox, **kw):
-        seen.append((src_, dst_, s_gbox, d_gbox, kw))
+    def rec(src_, dst_, s_gbox, d_gbox, resampling=None, src_nodata=None, dst_nodata=None, **kw):  # the signature of _rio_reproject
+        seen.append((src_, dst_, s_gbox, d_gbox, dict(kw, resampling=resampling, src_nodata=src_nodata, dst_nodata=dst_nodata)))
         return dst_
 
     gbx.GeoboxTiles.grid_intersect = lambda self, other: {(0, 0): list(selv)}
